@@ -17,7 +17,7 @@ def run(prop, tier, seed, replay=None):
         rc1 = storecheck.run(prop, tier, seed)
         if rc1 == 2:
             return 2
-        specs = [G.scenario(seed * 131 + k, tier) for k in range(6 if tier == "quick" else 40)]
+        specs = [G.scenario(seed * 131 + k, tier) for k in range(6 if tier == "quick" else 20)]
     with ThreadPoolExecutor(max_workers=4) as ex:
         ress = list(ex.map(G.run_scenario, specs))
     bad = [(sp, fs) for sp, (fs, _) in zip(specs, ress) if fs]
